@@ -218,6 +218,30 @@ static bool apply(World& w, const std::string& op, std::vector<Finding>* f, cons
             threw = true;
             if (e.dlerror().empty())
                 fail("dl-exception-without-loader-diagnostic", "dlerror() is empty for a missing library");
+            // the exception carries the diagnostic: a kept copy still says the same after further loader activity on this
+            // thread (another failing open with a different message, a successful open and close, a failing lookup)
+            nitro::dl::exception kept(e);
+            std::string text = e.dlerror(), what = e.what();
+            if (text.find("libvp_does_not_exist") == std::string::npos)
+                fail("dl-exception-without-loader-diagnostic", "dlerror() of the exception is " + mc::jstr(text) + ", which does not name the missing library");
+            try
+            {
+                Lib other(libdir() + "/libvp_another_missing_one.so");
+            }
+            catch (std::exception&)
+            {
+            }
+            try
+            {
+                Lib ok(libpath('a'));
+                auto s2 = ok.load<int()>("vp_no_such_symbol_either");
+            }
+            catch (std::exception&)
+            {
+            }
+            if (kept.dlerror() != text || std::string(kept.what()) != what)
+                fail("dl-exception-loses-its-diagnostic", "a kept copy of the exception said " + mc::jstr(text) + " when caught and says " + mc::jstr(kept.dlerror()) +
+                                                              " after later loader calls");
         }
         catch (std::exception& e)
         {
@@ -264,6 +288,18 @@ static bool apply(World& w, const std::string& op, std::vector<Finding>* f, cons
             {
                 if (e.dlerror().empty())
                     fail("dl-exception-without-loader-diagnostic", "dlerror() is empty for a missing symbol");
+                nitro::dl::exception kept(e);
+                std::string text = e.dlerror();
+                try
+                {
+                    Lib other(libdir() + "/libvp_another_missing_one.so");
+                }
+                catch (std::exception&)
+                {
+                }
+                if (kept.dlerror() != text)
+                    fail("dl-exception-loses-its-diagnostic", "a kept copy of the exception said " + mc::jstr(text) + " when caught and says " + mc::jstr(kept.dlerror()) +
+                                                                  " after a later failing open");
             }
             catch (std::exception& e)
             {
